@@ -5,6 +5,7 @@ Sequences are abstract symbol ids 1..k; `syms` instantiates them with concrete s
 alphabet, symbols drawn from a large alphabet).  Results are mapped back to ids (0 = empty symbol, 99 = a symbol
 that was not in the input)."""
 import itertools
+import random
 import math
 
 from pero_ocr import sequence_alignment as SA
@@ -82,15 +83,34 @@ def run_pair(case):
     rec = {"kind": "pair", "src": case["src"], "tgt": case["tgt"], "cost": [sc, ic, dc], "unit": unit,
            "variant": case["variant"]}
     pairs = lambda al: [[_back(rev, a), _back(rev, b)] for a, b in al]
-    rec["dist"] = _call(lambda: _num(SA.levenshtein_distance(list(src), list(tgt), sc, ic, dc)))
-    rec["al"] = _call(lambda: pairs(SA.levenshtein_alignment(list(src), list(tgt), sc, ic, dc)))
-    rec["path"] = _call(lambda: [_dir(d) for d in SA.levenshtein_alignment_path(list(src), list(tgt), sc, ic, dc)])
+    # Callers keep their list objects: for every other pair the two lists handed over are LONG-LIVED objects that held other
+    # symbols (same lengths) in the call just before and were edited in place - the answer must be about what they hold now.
+    reuse = (len(src) + 2 * len(tgt) + sc) % 2 == 0
+    rec["reused"] = reuse
+    S, T = list(src), list(tgt)
+    nxt = {c: syms[(i + 1) % len(syms)] for i, c in enumerate(syms)}
+
+    def on(f):
+        if not reuse:
+            return f(list(src), list(tgt))
+        S[:] = [nxt[x] for x in src]
+        T[:] = [nxt[x] for x in reversed(tgt)]
+        try:
+            f(S, T)
+        except Exception:
+            pass
+        S[:] = src
+        T[:] = tgt
+        return f(S, T)
+    rec["dist"] = _call(lambda: _num(on(lambda a, b: SA.levenshtein_distance(a, b, sc, ic, dc))))
+    rec["al"] = _call(lambda: pairs(on(lambda a, b: SA.levenshtein_alignment(a, b, sc, ic, dc))))
+    rec["path"] = _call(lambda: [_dir(d) for d in on(lambda a, b: SA.levenshtein_alignment_path(a, b, sc, ic, dc))])
     none = {"o": "skipped", "v": 0}
     if unit:
-        rec["sdist"] = _call(lambda: _num(SA.levenshtein_distance_substring(list(src), list(tgt))))
-        rec["sal"] = _call(lambda: pairs(SA.levenshtein_alignment_substring(list(src), list(tgt))))
+        rec["sdist"] = _call(lambda: _num(on(SA.levenshtein_distance_substring)))
+        rec["sal"] = _call(lambda: pairs(on(SA.levenshtein_alignment_substring)))
         try:
-            rec["summ"] = summary_fields(ErrorsSummary.from_lists(list(src), list(tgt)))
+            rec["summ"] = summary_fields(on(ErrorsSummary.from_lists))
         except Exception as ex:
             rec["summ"] = {"o": "exception:" + type(ex).__name__}
     else:
@@ -105,6 +125,37 @@ def _dir(d):
 
 def run_pairs(cases, procs=6):
     return pmap(run_pair, cases, procs=procs)
+
+
+def _ref_distance(src, tgt):
+    """unit-cost edit distance by a plain two-row dynamic programme (independent of the code under test)"""
+    prev = list(range(len(tgt) + 1))
+    for a in src:
+        cur = [prev[0] + 1] + [0] * len(tgt)
+        for j, b in enumerate(tgt, 1):
+            cur[j] = min(prev[j] + 1, cur[j - 1] + 1, prev[j - 1] + (a != b))
+        prev = cur
+    return prev[-1]
+
+
+def run_scale(case):
+    """sequences over MANY distinct symbols (more than 65 536 in one pair): case = {"n", "seed", "kind": "int" | "str"}"""
+    rng = random.Random(case["seed"])
+    n = case["n"]
+    pool = rng.sample(range(1, 2000000000), n + 3)
+    if case["symbols"] == "str":
+        pool = ["s%d" % x for x in pool]
+    tgt = pool[:n]
+    # the short side: two symbols of the long side far apart (in order), one foreign symbol, one symbol 65 536 places after another
+    src = [tgt[5], pool[n], tgt[5 + 65536] if n > 5 + 65536 else tgt[n // 2], tgt[n - 2]]
+    rec = {"kind": "scale", "n": n, "symbols": case["symbols"], "seed": case["seed"], "ref": _ref_distance(src, tgt)}
+    rec["dist"] = _call(lambda: _num(SA.levenshtein_distance(list(src), list(tgt))))
+    rec["dist_r"] = _call(lambda: _num(SA.levenshtein_distance(list(tgt), list(src))))
+    try:
+        rec["summ"] = summary_fields(ErrorsSummary.from_lists(list(src), list(tgt)))
+    except Exception as ex:
+        rec["summ"] = {"o": "exception:" + type(ex).__name__}
+    return rec
 
 
 def run_agg(case):
